@@ -147,6 +147,10 @@ def _close(a, b, rtol=RTOL):
         return _isnan(na) and _isnan(nb)
     if isinstance(na, int) and isinstance(nb, int):
         return na == nb
+    for i_, f_ in ((na, nb), (nb, na)):
+        # an integer beyond float precision compared with a float: exact (a relative tolerance would hide the rounding)
+        if isinstance(i_, int) and isinstance(f_, float) and abs(i_) >= 2 ** 53 and not math.isinf(f_):
+            return Fraction(f_) == i_
     fa, fb = float(na), float(nb)
     if math.isinf(fa) or math.isinf(fb):
         return fa == fb
